@@ -1,6 +1,8 @@
 package scion
 
 import (
+	"errors"
+
 	"github.com/scionproto/scion/pkg/slayers"
 )
 
@@ -22,6 +24,36 @@ const (
 		uint32(DRKeyProtocolTS)
 	PacketAuthAlgorithm = uint8(0) // AES-CMAC
 )
+
+var errNoPacketAuthOpt = errors.New("packet authenticator option not found")
+
+// FindPacketAuthOpt returns the packet authenticator option with the given SPI
+// and algorithm from e2e. An end-to-end extension can hold authenticator options
+// of several parties, and options are not covered by each other's MAC, so the
+// option to verify must not depend on what else was put in front of it. If no
+// option matches, the first authenticator option is returned, if there is one.
+func FindPacketAuthOpt(e2e *slayers.EndToEndExtn, spi uint32, algo uint8) (
+	*slayers.EndToEndOption, error) {
+	var first *slayers.EndToEndOption
+	for _, opt := range e2e.Options {
+		if opt.OptType != slayers.OptTypeAuthenticator {
+			continue
+		}
+		if first == nil {
+			first = opt
+		}
+		if len(opt.OptData) == PacketAuthOptDataLen {
+			s, a := PacketAuthOptMetadata(opt)
+			if s == spi && a == algo {
+				return opt, nil
+			}
+		}
+	}
+	if first == nil {
+		return nil, errNoPacketAuthOpt
+	}
+	return first, nil
+}
 
 func PacketAuthOptMetadata(authOpt *slayers.EndToEndOption) (spi uint32, algo uint8) {
 	authOptData := authOpt.OptData
